@@ -933,6 +933,16 @@ def unit_discr_kernel(meth, field):
                         ctx.prove(st, 'frame:tensor of %s unchanged' % l, lib.eq_goal(low, content(tens[l]), old[l]), info)
     return Unit('discr/%s/%s' % (meth, field), run, funcs=[DSP + 'DiscretizedSpace.' + meth], config={'method': meth, 'field': field})
 
+
+def unit_stale_nan_bounded():
+    """BOUNDED (never counted as proved; the deductive units are over the reals, A1, where 0 * v == 0): with IEEE NaN in the previous contents of the output - an uninitialised
+    element - set_zero(), lincomb / multiply into an output that is not an operand, assign and in-place operator calls give the same result in every size regime."""
+    def run(ctx):
+        from contracts import replay_c01
+        for case, bad in replay_c01.stale_nan_cases():
+            ctx.bounded('the previous contents of the output (NaN) do not influence the result', not bad, case, detail=bad)
+    return Unit('nan-native/stale-out', run, funcs=[NPT + '_lincomb_impl', SPACE + 'LinearSpaceElement.set_zero'], kind='B', bounded_in='sizes 3, 50, 99, 100, 150 x 3 dtypes x 7 operations; 3 operators x 2 sizes')
+
 # --------------------------------------------------------------------------
 
 def units(tier, seed):
@@ -971,6 +981,7 @@ def units(tier, seed):
     for d in sorted(BIN_TABLE):
         for k, power, field in ((2, True, 'real'), (2, False, 'real'), (2, True, 'complex')):
             us.append(unit_pspace_dunder(d, k, power, field))
+    us.append(unit_stale_nan_bounded())
     return us
 
 
